@@ -92,13 +92,14 @@ def fmt_counts(ctx, pt):
 
 def numerical_ranks(x, rtol=1e-10):
     """numerical ranks of the TT unfoldings of a dense array, plus a flag telling whether the decision is clear-cut
-    (no singular value in the ambiguous band (1e-12, 1e-6) * sigma_1)"""
+    (no singular value in the ambiguous band (1e-14, 1e-6) * sigma_1: anything above the float64 noise floor ~1e-15 may be a genuine
+    singular value that rounding at eps=1e-12 rightly keeps or drops depending on the budget split)"""
     ranks, clear = [], True
     for M in tt_unfoldings(x):
         s = svals(M)
         if len(s) == 0 or s[0] == 0:
             ranks.append(0); continue
         ranks.append(int(np.sum(s > rtol * s[0])))
-        if np.any((s > 1e-12 * s[0]) & (s < 1e-6 * s[0])):
+        if np.any((s > 1e-14 * s[0]) & (s < 1e-6 * s[0])):
             clear = False
     return ranks, clear
